@@ -3,7 +3,9 @@ package cross_chain_manager
 // Environment shim for running package cross_chain_manager in the engine (spec "overrides").
 // The package imports every chain handler, and through them every light client; several of those
 // packages' initialisers run third-party reflection code (amino codec registration, rlp type caches,
-// go-ethereum's rlpHash) that the engine cannot interpret. The handlers' MakeDepositProposal is
-// stubbed here, so none of their package state is used: the package initialisers of the 21 handler
-// packages are replaced by this no-op (which also skips the light-client packages below them).
+// go-ethereum's rlpHash) that the engine cannot interpret. In C20 the handlers' MakeDepositProposal
+// runs for real, but with its verifiers replaced (zz_c20_verifiers.go) the executed code uses no
+// package-level state of the handler or light-client packages (only constants), so the package
+// initialisers of the 21 handler packages are replaced by this no-op (which also skips the
+// light-client packages below them).
 func zzNoInit() {}
